@@ -9,7 +9,7 @@ import re
 
 
 TYPING_NAMES = ["Any", "Never", "List", "Dict", "Optional", "Tuple", "Callable", "Literal", "Type",
-                "Generic", "TypeVar", "Union"]
+                "Generic", "TypeVar", "Union", "NamedTuple", "Protocol", "TypedDict"]
 
 # annotation texts in ast.unparse-canonical formatting; {C} = a class of the program, {T} = a TypeVar
 TYPES = [
@@ -136,7 +136,8 @@ def gen_assign(cx, in_class):
     return {"kind": "assign", "targets": [r.choice(["o.x", "A.x", "self.x", "o.p.q"])], "value": v}
   if k < 0.92:
     return {"kind": "assign", "targets": [r.choice(["d[0]", "x[1]", "o.x[2]"])], "value": v}
-  return {"kind": "other", "text": r.choice(["x += 1", "print(x)", "pass", "assert True"])}
+  return {"kind": "other", "text": r.choice(["x += 1", "y -= 1", "print(x)", "pass", "assert True", "del z",
+                                            "from typing import w", "import x"])}
 
 
 def gen_class(cx, depth, inner=False, name=None):
@@ -145,8 +146,15 @@ def gen_class(cx, depth, inner=False, name=None):
     pool = [c for c in (cx.classes if not inner else ["Inner", "K", "Deep"]) if c not in cx.used_classes]
     name = r.choice(pool) if pool else cx.fresh("Cls")
   cx.used_classes.add(name)
-  bases = r.choice([[], [], [], ["object"], ["Base"], ["Generic[T]"] if cx.tvs else [], ["List[int]"]])
-  d = {"kind": "class", "name": name, "bases": bases, "body": [], "kw": r.choice(["", "", "", "metaclass=M"])}
+  bases = r.choice([[], [], [], ["object"], ["Base"], ["Generic[T]"] if cx.tvs else [], ["List[int]"],
+                    ["NamedTuple"], ["Protocol"], ["TypedDict"]])
+  special = bases and bases[0] in ("NamedTuple", "Protocol", "TypedDict")
+  d = {"kind": "class", "name": name, "bases": bases, "body": [],
+       "kw": "" if special else r.choice(["", "", "", "metaclass=M"])}
+  if special:      # typed fields first, like real NamedTuple / TypedDict / Protocol classes; then methods
+    for f in r.sample(["x", "y", "z", "w"], r.randint(1, 2)):
+      d["body"].append({"kind": "annassign", "target": f, "ann": cx.typ(), "value": None})
+    d["body"].append(gen_fun(cx, depth + 1, method=True, name=r.choice(["m", "get", "f"])))
   n = r.randint(1, 4)
   for _ in range(n):
     k = r.random()
@@ -180,7 +188,9 @@ def gen_block(cx, depth, in_class):
         out.append({"kind": "other", "text": "pass"})
     return out
   nb = {"if": 1, "ifelse": 2, "try": 3, "for": 1, "with": 1, "while": 2}[kind]
-  return {"kind": "block", "type": kind, "bodies": [body() for _ in range(nb)]}
+  # the loop / with target re-binds one of the names the program also assigns
+  return {"kind": "block", "type": kind, "bodies": [body() for _ in range(nb)],
+          "var": r.choice(["i", "cm", "x", "y", "z", "w", "x, y"])}
 
 
 def gen_program(r, size):
@@ -279,8 +289,10 @@ def render_items(items, ind, out, stub=False):
       out.append(pad + "from typing import " + ", ".join(it["names"]))
     elif k == "block":
       t = it["type"]
+      v = it.get("var", "i")
       heads = {"if": ["if cond:"], "ifelse": ["if cond:", "else:"], "try": ["try:", "except Exception:", "finally:"],
-               "for": ["for i in range(3):"], "with": ["with ctx() as cm:"], "while": ["while cond:", "else:"]}[t]
+               "for": ["for %s in range(3):" % v], "with": ["with ctx() as %s:" % v],
+               "while": ["while cond:", "else:"]}[t]
       for h, b in zip(heads, it["bodies"]):
         out.append(pad + h)
         render_items(b, ind + 1, out, stub)
